@@ -1,14 +1,19 @@
 #!/bin/sh
-# tools/run_seeds.sh : apply every stored seeded change in turn to /repo, run the quick check of its property, undo; prints CAUGHT / MISSED per seed
-# (nothing else may use /repo or run checks while this runs)
-if [ -n "$(git -C /repo status --porcelain)" ]; then echo "/repo has uncommitted changes"; exit 7; fi
-cd /verif
-for d in seeded/*/; do
+# tools/run_seeds.sh [pattern] : apply every stored seeded change (seeded/<pattern>*/patch.diff) in turn to a SCRATCH
+# worktree of /repo's HEAD, run the quick check of its property on that worktree (VERIF_REPO), undo; prints CAUGHT / MISSED
+# per seed. /repo's own working tree is never modified, so an interrupted sweep cannot leave a seed behind in it.
+HERE="$(cd "$(dirname "$0")" && pwd)"
+export VERIF_SCRATCH=/var/tmp/verif_seeds_$$
+S=$("$HERE/scratch_repo.sh" make) || exit $?
+trap '"$HERE/scratch_repo.sh" drop' EXIT INT TERM HUP
+cd "$HERE/.."
+for d in seeded/${1:-}*/; do
+  [ -f "$d/patch.diff" ] || continue
   s=$(basename $d); p=$(echo $s | cut -c1-3)
-  if ! git -C /repo apply --check /verif/$d/patch.diff 2>/dev/null; then echo "NOAPPLY $s"; continue; fi
-  git -C /repo apply /verif/$d/patch.diff
-  out=$(./check $p --tier quick --no-evidence 2>&1); rc=$?
-  git -C /repo checkout -- .
+  if ! git -C "$S" apply --check "$PWD/$d/patch.diff" 2>/dev/null; then echo "NOAPPLY $s"; continue; fi
+  git -C "$S" apply "$PWD/$d/patch.diff"
+  out=$(VERIF_REPO="$S" ./check $p --tier quick --no-evidence 2>&1); rc=$?
+  git -C "$S" checkout -- . ; git -C "$S" clean -fdq
   n=$(echo "$out" | grep -c "^VIOLATION")
   if [ $rc -eq 1 ] && [ $n -gt 0 ]; then echo "CAUGHT  $s ($n violation lines) $(echo "$out" | grep 'failed obligation' | head -1 | sed 's/instance=.*//' | cut -c1-150)"; else echo "MISSED  $s rc=$rc"; fi
 done
